@@ -37,9 +37,11 @@ def cases(tier, seed):
     n = 4000 if tier == 'quick' else 120000
     for i in range(n):
         k = rnd.choice([0, 0, 1, 2, 3, 4, 6])
-        yield dict(op=rnd.choice(['get', 'move', 'move']), n=k,
-                   outcomes=[rnd.choice(['success', 'success', 'warning', 'failure'])
-                             for _ in range(k)],
+        op = rnd.choice(['get', 'move', 'move'])
+        # 'raise': the C-GET user's storage handler refuses the instance (EventHandlingError)
+        kinds = ['success', 'success', 'warning', 'failure'] + (['raise'] if op == 'get' else [])
+        yield dict(op=op, n=k,
+                   outcomes=[rnd.choice(kinds) for _ in range(k)],
                    pending=rnd.choice(['none', 'after-each', 'random', 'zero-remaining']),
                    twice=rnd.random() < 0.5,
                    in_file=rnd.random() < 0.4, mid=rnd.choice([0, 1, 255, 65535, rnd.randrange(65536)]),
@@ -168,7 +170,10 @@ def _get(case):
             def on_receive_store(self, context, ds):
                 handled.append(1)
                 allsubs = subs1 + subs2
-                return OUT[allsubs[min(len(handled), len(allsubs)) - 1]['outcome']]
+                oc = allsubs[min(len(handled), len(allsubs)) - 1]['outcome']
+                if oc == 'raise':
+                    raise exceptions.EventHandlingError('refused')
+                return OUT[oc]
         cli = world.make_ae(Cli, 'CLI', [rc.IMPLICIT_LE], case['maxlen'])
         cli.timeout = 300
         cli.add_scu(sopclass.qr_get_scu)
@@ -231,12 +236,24 @@ def _get(case):
             if f.get(0x0120) != s['mid'] or f.get(0x1000) != str(s['ds'].SOPInstanceUID):
                 v('store-response-does-not-match-request', 'request (%d, %s) response (%r, %r)' % (
                     s['mid'], s['ds'].SOPInstanceUID, f.get(0x0120), f.get(0x1000)))
-            if f.get(0x0900) != OUT[s['outcome']]:
+            if s['outcome'] == 'raise':
+                if f.get(0x0900) in (0x0000, 0xFF00, 0xFF01, None, ''):
+                    v('refused-instance-acknowledged', 'handler raised EventHandlingError, '
+                      'response status %r' % (f.get(0x0900),))
+            elif f.get(0x0900) != OUT[s['outcome']]:
                 v('store-response-status-wrong', 'handler %04x response %r' % (
                     OUT[s['outcome']], f.get(0x0900)))
+        # an instance the handler refused may or may not be handed on; all others exactly once,
+        # and the order is the order of arrival
         want = [str(s['ds'].SOPInstanceUID) for s in subs]
-        if got != want:
-            v('instances-not-yielded-once-in-order', 'sent %r\nyielded %r' % (want, got))
+        optional = set(str(s['ds'].SOPInstanceUID) for s in subs if s['outcome'] == 'raise')
+        must = [u for u in want if u not in optional]
+        got_must = [u for u in got if u not in optional]
+        it = iter(want)
+        in_order = all(any(u == w for w in it) for u in got)
+        if got_must != must or not in_order or len(set(got)) != len(got):
+            v('instances-not-yielded-once-in-order', 'sent %r\nyielded %r (refused by the '
+              'handler: %r)' % (want, got, sorted(optional)))
         if not state['final_sent'] or not out.get('done'):
             v('operation-did-not-end-at-final-response', repr(out))
         return _fin(world, viol, case, {'yielded': len(got)})
